@@ -11,7 +11,7 @@ CHECK = {
          "cases_thorough": {"buckets": [1, 2, 3], "bucketNanos": [1, 16], "halfOpenMax": [1, 2]}},
         {"fn": P + "vC47_complete", "opts": HOPTS,
          "cases_quick": {"buckets": [1, 2], "bucketNanos": [16], "halfOpenMax": [1]},
-         "cases_thorough": {"buckets": [1, 2, 3], "bucketNanos": [1, 16], "halfOpenMax": [1, 2]}},
+         "cases_thorough": {"buckets": [1, 2, 3], "bucketNanos": [16], "halfOpenMax": [2]}},
         {"fn": P + "vC47_history", "opts": HOPTS, "tiers": ("thorough",),
          "cases": {"buckets": [1, 2], "bucketNanos": [16], "halfOpenMax": [1], "calls": [2], "nested": [0]},
          "cover_optional": ("closed-again", "rejected-halfopen-full", "half-open", "opened", "rejected-open")},
